@@ -167,7 +167,7 @@ example (ext : Avro.Impl.Ext) (hash : Key → String) (fuel : Nat) (Sm : SchemaM
 
 /-! ### The condition of extension 2 is necessary -/
 
-def ext0 : Avro.Impl.Ext :=
+def extW0 : Avro.Impl.Ext :=
   { asF32 := fun _ => 0, decFromF64 := fun _ => none, decParse := fun _ => none, decRescale := fun x _ => x }
 
 /-- `struct R<T> { x: Option<T> }`. -/
@@ -190,13 +190,13 @@ example : DeriveW.FitWfW optionBadProgU (.named 0 [.named 1 []]) = false := by d
 /-- Whether the value serializes under the schema derived for `root` (`none`: no schema). -/
 def fitsAt (P : Prog) (root : Ty) (sv : SV) : Option Bool :=
   (schemaMut P DeriveNames.hashDemo 40 root).map fun Sm =>
-    match (ser ext0 false (freezeNodes Sm) ((freezeNodes Sm)[0]!) sv {}).1 with
+    match (ser extW0 false (freezeNodes Sm) ((freezeNodes Sm)[0]!) sv {}).1 with
     | .ok _ => true
     | .error _ => false
 
 theorem not_fits_of_fitsAt {P : Prog} {root : Ty} {sv : SV} (h : fitsAt P root sv = some false) :
     ∃ Sm, schemaMut P DeriveNames.hashDemo 40 root = some Sm ∧
-      (ser ext0 false (freezeNodes Sm) ((freezeNodes Sm)[0]!) sv {}).1 ≠ .ok () := by
+      (ser extW0 false (freezeNodes Sm) ((freezeNodes Sm)[0]!) sv {}).1 ≠ .ok () := by
   unfold fitsAt at h
   cases hs : schemaMut P DeriveNames.hashDemo 40 root with
   | none => simp [hs] at h
@@ -210,7 +210,7 @@ theorem not_fits_of_fitsAt {P : Prog} {root : Ty} {sv : SV} (h : fitsAt P root s
 theorem option_param_at_option_fails :
     hasShape optionBadProg 6 (.named 0 [.option .i32]) (.struct "R" [("x", .some (.some (.int .i32 5)))]) = true ∧
     ∃ Sm, schemaMut optionBadProg DeriveNames.hashDemo 40 (.named 0 [.option .i32]) = some Sm ∧
-      (ser ext0 false (freezeNodes Sm) ((freezeNodes Sm)[0]!)
+      (ser extW0 false (freezeNodes Sm) ((freezeNodes Sm)[0]!)
         (.struct "R" [("x", .some (.some (.int .i32 5)))]) {}).1 ≠ .ok () :=
   ⟨by decide +kernel, not_fits_of_fitsAt (by decide +kernel)⟩
 
@@ -219,9 +219,9 @@ theorem option_param_at_option_fails :
 theorem option_param_at_option_some_none :
     fitsAt optionBadProg (.named 0 [.option .i32]) (.struct "R" [("x", .some .none)]) = some true ∧
     (schemaMut optionBadProg DeriveNames.hashDemo 40 (.named 0 [.option .i32])).map (fun Sm =>
-      (ser ext0 false (freezeNodes Sm) ((freezeNodes Sm)[0]!) (.struct "R" [("x", .some .none)]) {}).2.out) =
+      (ser extW0 false (freezeNodes Sm) ((freezeNodes Sm)[0]!) (.struct "R" [("x", .some .none)]) {}).2.out) =
     (schemaMut optionBadProg DeriveNames.hashDemo 40 (.named 0 [.option .i32])).map (fun Sm =>
-      (ser ext0 false (freezeNodes Sm) ((freezeNodes Sm)[0]!) (.struct "R" [("x", .none)]) {}).2.out) :=
+      (ser extW0 false (freezeNodes Sm) ((freezeNodes Sm)[0]!) (.struct "R" [("x", .none)]) {}).2.out) :=
   ⟨by decide +kernel, by decide +kernel⟩
 
 /-- **`Option<T>` at `T` = an enum that maps to a union does not fit**: `R { x: Some(E::A(5)) }` is
@@ -230,7 +230,7 @@ theorem option_param_at_union_fails :
     hasShape optionBadProgU 6 (.named 0 [.named 1 []])
       (.struct "R" [("x", .some (.newtypeVariant "E" 0 "Int" (.int .i32 5)))]) = true ∧
     (∃ Sm, schemaMut optionBadProgU DeriveNames.hashDemo 40 (.named 0 [.named 1 []]) = some Sm ∧
-      (ser ext0 false (freezeNodes Sm) ((freezeNodes Sm)[0]!)
+      (ser extW0 false (freezeNodes Sm) ((freezeNodes Sm)[0]!)
         (.struct "R" [("x", .some (.newtypeVariant "E" 0 "Int" (.int .i32 5)))]) {}).1 ≠ .ok ()) ∧
     fitsAt optionBadProgU (.named 1 []) (.newtypeVariant "E" 0 "Int" (.int .i32 5)) = some true :=
   ⟨by decide +kernel, not_fits_of_fitsAt (by decide +kernel), by decide +kernel⟩
@@ -247,7 +247,7 @@ def newtypeBadProg : Prog := #[
 theorem newtype_param_at_option_fails :
     hasShape newtypeBadProg 5 (.named 0 [.option .i32]) (.newtypeStruct "Int" .none) = true ∧
     (∃ Sm, schemaMut newtypeBadProg DeriveNames.hashDemo 40 (.named 0 [.option .i32]) = some Sm ∧
-      (ser ext0 false (freezeNodes Sm) ((freezeNodes Sm)[0]!) (.newtypeStruct "Int" .none) {}).1 ≠ .ok ()) ∧
+      (ser extW0 false (freezeNodes Sm) ((freezeNodes Sm)[0]!) (.newtypeStruct "Int" .none) {}).1 ≠ .ok ()) ∧
     DeriveW.FitWfW newtypeBadProg (.named 0 [.option .i32]) = false ∧
     DeriveW.FitWfW newtypeBadProg (.named 0 [.i32]) = true :=
   ⟨by decide +kernel, not_fits_of_fitsAt (by decide +kernel), by decide +kernel, by decide +kernel⟩
